@@ -28,6 +28,9 @@ func c05Impl(in []int64) []int64 {
 	if len(in) > 0 && in[0] == -5 {
 		return wideImpl(in)
 	}
+	if len(in) > 0 && in[0] == -7 {
+		return longImpl(in)
+	}
 	tc, ok := decodeTrieCase(in, false)
 	if !ok {
 		return []int64{BADCASE}
@@ -119,6 +122,7 @@ func c05TryExh(t *T, family string, tc *trieCase, textIdx int) {
 
 func c05Gen(c *Ctx) {
 	wideGen(c, -5) // very wide / very large tries, judged by the closed form of Run/C106.v
+	longGen(c)     // very long patterns (more than 65535 bytes), judged by the direct evaluation of Run/C107.v
 	if cs := trieCollisionCases(); true {
 		_, note := trieCollisionHits()
 		c.Note(note)
@@ -340,9 +344,17 @@ func c05Gen(c *Ctx) {
 }
 
 func init() {
-	Register(&Prop{ID: "C05", Num: 5, NumOf: wideNum(5), SpecMode: "rel", Gen: c05Gen, Impl: c05Impl,
-		Shrink:   trieShrink(false),
+	Register(&Prop{ID: "C05", Pure: true, Num: 5, NumOf: longNum(5), SpecMode: "rel", Gen: c05Gen, Impl: c05Impl,
+		Shrink: func(in []int64) [][]int64 {
+			if len(in) > 0 && in[0] == -7 {
+				return longShrink(in)
+			}
+			return trieShrink(false)(in)
+		},
 		Describe: func(in []int64) string {
+			if len(in) > 0 && in[0] == -7 {
+				return longDescribe(in)
+			}
 			if len(in) > 3 && (in[0] == -5 || in[0] == -6) {
 				return fmt.Sprintf("wide trie: all %d-rune patterns over the %d runes from U+%X; text runes, replacement, mask: %v", in[3], in[2], in[1], in[4:])
 			}
@@ -352,5 +364,6 @@ func init() {
 		Rule: "pattern sets (shared prefixes, patterns nested as suffixes/infixes, duplicates, empty pattern) over {a,b,c}, a 2-, 3- and 4-byte rune and raw bytes 0xff/0xfe, plus truncated-sequence sets; " +
 			"all texts up to length 6 over {a,b,c} for 25 hand-written sets, all texts up to 3 units for the multi-byte sets, random longer texts, keys cut out of patterns, the late-long-occurrence family, wide tries (queue growth), dense / many-irregular / many-large tries (second and third growth of the BFS queue), rebuilds, and tries without a final BuildFailureLinks (model comparison only). " +
 			"About 3 cases in 8 (histogram `dump`; all of many-large, wide, rebuild; the first four texts of every exhaustive set) also observe the BUILT STRUCTURE: every node's word, isEnd, size, number of children and fail target, read from the real trie through reflect/unsafe, compared with the model's node table and with the automaton computed from the patterns alone. " +
+			"Very long patterns (family very-long-patterns, Run/C107.v): tries with one or two patterns of 65530..70200 bytes (1-, 2-, 3-byte runes; the second pattern a prefix, an extension or a late branch of the first), keys/texts cut out of the pattern by position (empty key, full pattern, long prefix, branching point, pattern twice); every returned string is compared as (byte length, checksum) with the specification evaluated on strings given as functions of the position; the same shapes with 100..300 runes also run as ordinary cases through the table model. " +
 			"Non-trivial: the trie ends with BuildFailureLinks and some pattern occurs in the text or has the text as a prefix"})
 }
